@@ -1004,11 +1004,17 @@ class VerifyingAdapterLookup(AdapterLookupBase, VerifyingBase):
     def changed(self, originally_changed):
         # We get no notifications. One of the registries above ours may
         # have been given new bases, which changes our resolution order.
+        # Record the generations before computing the order, and again
+        # if the order changed: a registry re-based (in another thread)
+        # while we compute is then noticed by the next lookup instead of
+        # leaving us with an order that mixes old and new bases.
         registry = self._registry
-        new_ro = ro.ro(registry)
-        if new_ro != registry.ro:
+        while True:
+            super().changed(originally_changed)
+            new_ro = ro.ro(registry)
+            if new_ro == registry.ro:
+                break
             registry.ro = new_ro
-        super().changed(originally_changed)
 
 
 @implementer(IAdapterRegistry)
